@@ -59,7 +59,8 @@ http://www.hyperelliptic.org/efd. Там же можно найти соглаш
 	(gf2IsIn(ecX(a), (ec)->f) && gf2IsIn(ecY(a, (ec)->f->n), (ec)->f))
 
 #define ec2SeemsOn3(a, ec)\
-	(ec2SeemsOnA(a, ec) && gf2IsIn(ecZ(a, (ec)->f->n), (ec)->f))
+	(gf2IsIn(ecZ(a, (ec)->f->n), (ec)->f) &&\
+		(qrIsZero(ecZ(a, (ec)->f->n), (ec)->f) || ec2SeemsOnA(a, ec)))
 
 /*
 *******************************************************************************
@@ -178,6 +179,12 @@ static void ec2NegLD(word b[], const word a[], const ec_o* ec, void* stack)
 	ASSERT(ecIsOperable(ec) && ec->d == 3);
 	ASSERT(ec2SeemsOn3(a, ec));
 	ASSERT(wwIsSameOrDisjoint(a, b, 3 * n));
+	// a == O => b <- O (координаты X, Y точки O не определены)
+	if (qrIsZero(ecZ(a, n), ec->f))
+	{
+		qrSetZero(ecZ(b, n), ec->f);
+		return;
+	}
 	// t1 <- xa * za
 	qrMul(t1, ecX(a), ecZ(a, n), ec->f, stack);
 	// b <- (xa, ya + t1, za)
@@ -488,6 +495,12 @@ static void ec2SubLD(word c[], const word a[], const word b[],
 	ASSERT(ec2SeemsOn3(b, ec));
 	ASSERT(wwIsSameOrDisjoint(a, c, 3 * n));
 	ASSERT(wwIsSameOrDisjoint(b, c, 3 * n));
+	// b == O => c <- a (координаты X, Y точки O не определены)
+	if (qrIsZero(ecZ(b, n), ec->f))
+	{
+		wwCopy(c, a, 3 * n);
+		return;
+	}
 	// t <- -b
 	qrMul(ecY(t, n), ecX(b), ecZ(b, n), ec->f, stack);
 	gf2Add2(ecY(t, n), ecY(b, n), ec->f);
@@ -764,7 +777,7 @@ void ec2NegA(word b[], const word a[], const ec_o* ec)
 	// pre
 	ASSERT(ecIsOperable(ec));
 	ASSERT(ec2SeemsOnA(a, ec));
-	ASSERT(wwIsSameOrDisjoint(a, b, 3 * n));
+	ASSERT(wwIsSameOrDisjoint(a, b, 2 * n));
 	// b <- (xa, ya + xa)
 	qrCopy(ecX(b), ecX(a), ec->f);
 	gf2Add(ecY(b, n), ecX(a), ecY(a, n), ec->f);
